@@ -71,3 +71,29 @@ Example C17_example :
   /\ split_netloc [104; 58] = Ok (None, None, Some [104], None).
 Proof. repeat split; reflexivity. Qed.
 Print Assumptions C17_example.
+
+(** Tie to the source by translation: _cache_netloc, the getters explicit_port / raw_host, and
+    port, is_default_port(), host_subcomponent, host_port_subcomponent of class URL
+    (yarl/_url.py) are re-read from the working tree on every run (harness/gen_model.py, method
+    scheme) and proved equal to the model's accessors the theorems above are about.  A
+    cached_property getter runs only when the object holds no pre-computed value, hence the
+    case split on the eagerly stored parts. *)
+From Yarl Require Import Model.Url Model.GenTypes Generated.UrlGen Proofs.GenUrlProofs.
+Theorem C17_source_lazy_split : forall u : url,
+  netloc_parts u = match u_eager u with Some m => Ok m | None => gen_cache_netloc u end.
+Proof. exact gen_cache_netloc_ok. Qed.
+Print Assumptions C17_source_lazy_split.
+Theorem C17_source_getters : forall u : url,
+  raw_user u = (match u_eager u with Some m => Ok (m_user m) | None => gen_raw_user u end)
+  /\ raw_password u = (match u_eager u with Some m => Ok (m_password m) | None => gen_raw_password u end)
+  /\ raw_host u = (match u_eager u with Some m => Ok (m_host m) | None => gen_raw_host u end)
+  /\ explicit_port u = (match u_eager u with Some m => Ok (m_port m) | None => gen_explicit_port u end).
+Proof. exact gen_authority_getters_ok. Qed.
+Print Assumptions C17_source_getters.
+Theorem C17_source_port : forall u : url, gen_port u = port u /\ gen_is_default_port u = is_default_port u.
+Proof. exact gen_port_ok. Qed.
+Print Assumptions C17_source_port.
+Theorem C17_source_host_port_subcomponent : forall u : url,
+  gen_host_subcomponent u = host_subcomponent u /\ gen_host_port_subcomponent u = host_port_subcomponent u.
+Proof. intros u. split; [apply gen_host_subcomponent_ok|apply gen_host_port_subcomponent_ok]. Qed.
+Print Assumptions C17_source_host_port_subcomponent.
